@@ -31,6 +31,101 @@ def recover_perm(outs):
     return acc
 
 
+def selection_cases(ctx, lines, expect, meta):
+    """`QBitsTensor.create` / `optimize` on a stand-in for a CUDA device: the payload is a CPU tensor of a
+    subclass whose `.device` reports cuda:0 and `torch.cuda.get_device_capability` is replaced; everything
+    else (the decision, AWQBitsTensor.__init__, pack_v2) is the unmodified code."""
+    import optimum.quanto as q
+    from optimum.quanto.tensor.qbits import QBitsTensor
+    from optimum.quanto.tensor.qbits.packed import PackedTensor
+
+    class FakeCuda(torch.Tensor):
+        device = property(lambda self: torch.device("cuda:0"))
+
+    cap = [(8, 0)]
+    saved = torch.cuda.get_device_capability
+    torch.cuda.get_device_capability = lambda d=None: cap[0]
+    dts = {"f16": torch.float16, "f32": torch.float32, "bf16": torch.bfloat16}
+    g = torch.Generator().manual_seed(ctx.seed + 11)
+    try:
+        grid = []
+        for qn in ("qint4", "qint2"):
+            for F in ("f16", "f32", "bf16"):
+                for axis in (0, -1):
+                    for gs in (128, 64, 32):
+                        for size in ([4, 128], [6, 128], [8, 256], [2, 256], [3, 384], [12, 128], [4, 32, 2, 2], [256], [1, 128]):
+                            for dev in ("cuda", "cpu"):
+                                for c in ((7, 5), (8, 0), (8, 6), (9, 0)) if dev == "cuda" else ((0, 0),):
+                                    grid.append((qn, F, axis, gs, size, dev, c))
+        if not ctx.thorough:
+            # every configuration one condition away from selection, plus a seeded sample of the rest
+            near = [x for x in grid if sum([x[0] == "qint4", x[1] == "f16", x[2] == 0, x[3] == 128, len(x[4]) == 2, x[5] == "cuda", x[6][0] >= 8]) >= 6]
+            rest = [x for x in grid if x not in near]
+            grid = near + ctx.rng.sample(rest, 150)
+        for (qn, F, axis, gs, size, dev, c) in grid:
+            numel = 1
+            for d in size:
+                numel *= d
+            if numel % gs:
+                continue
+            qt = q.qtypes[qn]
+            rows = numel // gs
+            codes = torch.randint(0, 2 ** qt.bits, (rows, gs) if axis == 0 else (gs, rows), generator=g, dtype=torch.uint8)
+            scale = (torch.rand((rows, 1) if axis == 0 else (1, rows), generator=g) + 0.5).to(dts[F])
+            zp = torch.randint(0, 2 ** qt.bits, tuple(scale.shape), generator=g).to(torch.int8)
+            stride = list(torch.empty(size).stride())
+            cap[0] = c
+            for form in ("raw", "packed"):
+                if form == "raw":
+                    data = codes.as_subclass(FakeCuda) if dev == "cuda" else codes
+                else:
+                    p0 = PackedTensor.pack(codes, qt.bits)
+                    data = PackedTensor(p0._data.as_subclass(FakeCuda), qt.bits, p0.size(), p0.stride()) if dev == "cuda" else p0
+                try:
+                    r = QBitsTensor.create(qt, axis, gs, torch.Size(size), stride, data, scale, zp)
+                    out = type(r).__name__
+                except Exception as e:  # noqa
+                    r, out = None, "raises"
+                    ctx.count("create:raises:" + exc_name(e))
+                lines.append(f"create15 {qn} {F} {axis} {gs} {shape_s(size)} {dev} {c[0]}")
+                expect.append(out)
+                meta.append("create")
+                ctx.evaluations += 1
+                ctx.count(f"create:{out}")
+                ctx.nontriv(("create", qn, F, axis, gs, tuple(size), dev, c, form))
+                if out == "raises":
+                    ctx.spec_failures.append(("C15:create-raises:" + ("awq-selected-rows-not-multiple-of-4" if (len(size) == 2 and size[0] % 4) else "other"),
+                                              {"qtype": qn, "dtype": F, "axis": axis, "group_size": gs, "size": size, "device": dev, "capability": list(c), "data": form}))
+                    continue
+                if out == "AWQBitsTensor":
+                    # what was built denotes the same codes: unpack on the CPU copy of the payload
+                    from optimum.quanto.tensor.qbits.awq.packed import unpack_v2
+                    back = unpack_v2(r._data._data.as_subclass(torch.Tensor))
+                    if not torch.equal(back.reshape(rows, gs), codes):
+                        ctx.spec_failures.append(("C15:created-awq-holds-other-codes", {"size": size}))
+                if form == "packed":
+                    try:
+                        o = r.optimize()
+                        oc = type(o).__name__
+                        # (a standard result holds the stand-in payload unpacked — an artefact of the stand-in — so only
+                        # optimised results are optimised again)
+                        if oc == "AWQBitsTensor":
+                            oo = o.optimize()
+                            if oo is not o or (out == "AWQBitsTensor" and o is not r):
+                                ctx.spec_failures.append(("C15:optimize-not-idempotent", {"size": size, "first": oc, "second": type(oo).__name__}))
+                    except Exception as e:  # noqa
+                        oc = "raises"
+                    lines.append(f"optimize15 {out} {qn} {F} {axis} {gs} {shape_s(size)} {dev} {c[0]}")
+                    expect.append(oc)
+                    meta.append("optimize")
+                    ctx.evaluations += 1
+    finally:
+        torch.cuda.get_device_capability = saved
+    lines.append("createconds15")
+    expect.append("understood true")
+    meta.append("create-conds")
+
+
 def run(ctx):
     if sys.flags.optimize < 1:
         print("HARNESS-ERROR property=C15 must run under python -O (vcheck re-executes itself)")
@@ -46,7 +141,7 @@ def run(ctx):
     rng = ctx.rng
     ctx.extra["rule"] = ("v2: every (N,K) with N a multiple of 4 up to 32 [thorough 128], K a multiple of 64 up to 512 [2048]; v1: N in 1..8, K a multiple of 8 up to 128, both reorder values; "
                          "per shape the position permutation is recovered completely from index-encoding digit passes and compared with the model, plus random 4-bit matrices; v2 vs external/awq/pack_intweight.py bit identity; "
-                         "AWQBitsTensor construction / dequantize / qbits_tensor on random float16 group-128 int4 weights. distinct = (op, shape, data hash); non-trivial = all (every case exercises a permutation)")
+                         "AWQBitsTensor construction / dequantize / qbits_tensor on random float16 group-128 int4 weights; QBitsTensor.create / optimize over qtype x dtype x axis x group size x 9 sizes x device x capability on a stand-in CUDA device. distinct = (op, shape, data hash); non-trivial = all (every case exercises a permutation)")
     maxN, maxK = (32, 512) if not ctx.thorough else (128, 2048)
     lines, expect, meta = [], [], []
     g = torch.Generator().manual_seed(ctx.seed + 7)
@@ -160,6 +255,7 @@ def run(ctx):
         ctx.evaluations += 1
         ctx.count("awqbits")
         ctx.nontriv(("awqbits", N, K, i))
+    selection_cases(ctx, lines, expect, meta)
     got = run_driver(lines)
     ctx.corr_cases += len(lines)
     for l, e, gg, m in zip(lines, expect, got, meta):
@@ -179,4 +275,4 @@ def run(ctx):
             ctx.corr_disagreements.append({"case": l[:800], "impl": e[:800], "model": gg[:800], "tag": m})
     ctx.sample({"line": lines[0][:300], "impl": expect[0][:300]})
     ctx.sample({"line": lines[-1][:300], "impl": expect[-1][:300]})
-    return finish(ctx, ["the modules are run with asserts disabled (python -O) on CPU tensors; CUDA gemm kernels and the automatic selection of AWQBitsTensor on capability >= 8 cannot run here"])
+    return finish(ctx, ["the modules are run with asserts disabled (python -O) on CPU tensors; CUDA gemm kernels cannot run here; the selection of AWQBitsTensor is exercised on a stand-in device (a CPU tensor subclass reporting cuda:0, patched get_device_capability): the real move to / from a GPU (_to_copy) is tied by source text only"])
